@@ -38,7 +38,9 @@ pub const B: u8 = 1;
 pub const G: u8 = 2;
 pub const G2: u8 = 3;
 pub const X: u8 = 4;
-pub const NATIVES: [&str; 2] = ["ucosm", "ustake"];
+/// bank denominations; the last one contains a '/' itself (token-factory / path style) and its
+/// first segment is another denomination of the list
+pub const NATIVES: [&str; 4] = ["ucosm", "ustake", "uusd", "uusd/vault-7"];
 
 pub fn ics() -> String {
     addr_cached("ics20")
@@ -115,13 +117,20 @@ impl<'de> Deserialize<'de> for Amt {
 pub enum Tok {
     Native(u8),
     Cw20(u8),
+    /// a BANK coin whose denom is literally the string "cw20:<address of cw20 token i>" (the bank
+    /// allows ':' in denoms): it shares the channel-book key of the real token
+    BankNamedLikeCw20(u8),
 }
 impl Tok {
+    /// held in the kernel bank (as opposed to a cw20 contract)
+    pub fn is_bank(&self) -> bool {
+        !matches!(self, Tok::Cw20(_))
+    }
     /// the denomination cw20-ics20 uses for it in packets and channel books
     pub fn denom(&self) -> String {
         match self {
             Tok::Native(i) => NATIVES[*i as usize].to_string(),
-            Tok::Cw20(i) => format!("cw20:{}", tok_addr(*i)),
+            Tok::Cw20(i) | Tok::BankNamedLikeCw20(i) => format!("cw20:{}", tok_addr(*i)),
         }
     }
 }
@@ -258,6 +267,7 @@ fn tok_name(t: &Tok) -> String {
     match t {
         Tok::Native(i) => NATIVES[*i as usize].to_string(),
         Tok::Cw20(i) => format!("T{}", i + 1),
+        Tok::BankNamedLikeCw20(i) => format!("bank coin named cw20:T{}", i + 1),
     }
 }
 
@@ -481,6 +491,14 @@ impl Obs {
             self.cw20.get(&(t.to_string(), addr.to_string())).copied().unwrap_or(0)
         } else {
             self.bank.get(&(addr.to_string(), denom.to_string())).copied().unwrap_or(0)
+        }
+    }
+    /// real balance of `addr` in token `t` (bank coins by their literal denom, cw20 by the token's Balance)
+    pub fn tbal(&self, addr: &str, t: &Tok) -> u128 {
+        if t.is_bank() {
+            self.bank.get(&(addr.to_string(), t.denom())).copied().unwrap_or(0)
+        } else {
+            self.bal(addr, &t.denom())
         }
     }
     pub fn chan_bal(&self, ch: u8, denom: &str) -> u128 {
@@ -1081,11 +1099,11 @@ impl Ics20Model {
             memo: memo.clone(),
         };
         match tok {
-            Tok::Native(i) => w.execute_json(
+            Tok::Native(_) | Tok::BankNamedLikeCw20(_) => w.execute_json(
                 &actor(user),
                 &ics(),
                 &ExecuteMsg::Transfer(tm),
-                &[coin(amt, NATIVES[i as usize])],
+                &[coin(amt, tok.denom())],
             ),
             Tok::Cw20(t) => w.execute_json(
                 &actor(user),
@@ -1116,6 +1134,7 @@ fn label(a: &Act) -> String {
         Act::Transfer { tok, amt, .. } => {
             let k = match tok {
                 Tok::Native(_) => "Transfer.native",
+                Tok::BankNamedLikeCw20(_) => "Transfer.native-named-like-cw20",
                 Tok::Cw20(_) => "Transfer.cw20",
             };
             if amt.0 == U64MAX {
@@ -1206,13 +1225,13 @@ impl Model for Ics20Model {
             }
         }
         for (u, k, x) in &cfg.funds {
-            if let Tok::Native(i) = k {
-                w.set_balance(&actor(*u), NATIVES[*i as usize], *x);
+            if k.is_bank() {
+                w.set_balance(&actor(*u), &k.denom(), *x);
             }
         }
         for (k, x) in &escrow {
-            if let Tok::Native(i) = k {
-                w.set_balance(&ics, NATIVES[*i as usize], *x);
+            if k.is_bank() {
+                w.set_balance(&ics, &k.denom(), *x);
             }
         }
         let mut r = Ref {
@@ -1324,7 +1343,7 @@ impl Model for Ics20Model {
         if s.w.outbox.len() < cfg.max_inflight {
             for &u in &cfg.senders {
                 for &tok in &cfg.send_toks {
-                    let have = s.obs.bal(&actor(u), &tok.denom());
+                    let have = s.obs.tbal(&actor(u), &tok);
                     for &amt in &cfg.send_amounts {
                         // the driver closes the system: transfers the payer cannot fund never reach cw20-ics20
                         if amt > have {
@@ -1462,8 +1481,8 @@ impl Model for Ics20Model {
                         v.push(Violation::new("kernel.refused_call_changed_state", pre.diff(&post)));
                     }
                 } else {
-                    let rose = post.bal(&ics, &d).checked_sub(pre.bal(&ics, &d));
-                    let fell = pre.bal(&actor(*user), &d).checked_sub(post.bal(&actor(*user), &d));
+                    let rose = post.tbal(&ics, tok).checked_sub(pre.tbal(&ics, tok));
+                    let fell = pre.tbal(&actor(*user), tok).checked_sub(post.tbal(&actor(*user), tok));
                     // references follow the accepted call
                     add(&mut r.out, (*ch, d.clone()), amt.0);
                     credit_add(&mut r.credit, (*ch, d.clone()), rose.unwrap_or(0) as i128);
